@@ -287,6 +287,34 @@ pub fn run_c20(a: &Args) {
                 if bits != want { bad.push(format!("threads={nt} round={round} item={i}: {bits:x} vs sequential {want:x}")); } } }
             Err(_) => bad.push(format!("threads={nt} round={round}: a thread panicked")) } }
     } }
+    // histories across INSTANTIATIONS of the value type: an operator evaluated at Val<i32,_> first (where it overflows) and
+    // at Val<i64,_> / Val<i128,_> afterwards must give the wider type's own result (no state shared between instantiations,
+    // e.g. a table in a static of a generic function); literals folded at parse time and variables at evaluation time
+    {
+        use exmex::{parse_val, Express, Val};
+        let fact = |k: u32| -> Option<i128> { (1..=k as i128).try_fold(1i128, |a, b| a.checked_mul(b)) };
+        for k in 0u32..=36 {
+            let want = fact(k);
+            let w32 = want.and_then(|v| i32::try_from(v).ok()); let w64 = want.and_then(|v| i64::try_from(v).ok());
+            let text = format!("fact({k})"); let leaked: &'static str = Box::leak(text.clone().into_boxed_str());
+            // literal, folded while parsing; then through a variable
+            let g32 = parse_val::<i32, f64>(leaked).and_then(|e| e.eval(&[])); let v32 = parse_val::<i32, f64>("fact(n)").and_then(|e| e.eval(&[Val::Int(k as i32)]));
+            let g64 = parse_val::<i64, f64>(leaked).and_then(|e| e.eval(&[])); let v64 = parse_val::<i64, f64>("fact(n)").and_then(|e| e.eval(&[Val::Int(k as i64)]));
+            let g128 = parse_val::<i128, f64>(leaked).and_then(|e| e.eval(&[])); let v128 = parse_val::<i128, f64>("fact(n)").and_then(|e| e.eval(&[Val::Int(k as i128)]));
+            histories += 1;
+            let chk = |name: &str, got: String, want: Option<String>, bad: &mut Vec<String>| { let is_err = got.contains("Error"); match want { Some(w) => if got != w { bad.push(format!("after the same operator on a narrower integer type: {name} fact({k}) = {got}, its own result is {w}")) }, None => if !is_err { bad.push(format!("{name} fact({k}) = {got}, expected an overflow error value")) } } };
+            for (name, got, want) in [("i32 literal", format!("{g32:?}"), w32.map(|v| format!("Ok(Int({v}))"))), ("i32 variable", format!("{v32:?}"), w32.map(|v| format!("Ok(Int({v}))"))),
+                                      ("i64 literal", format!("{g64:?}"), w64.map(|v| format!("Ok(Int({v}))"))), ("i64 variable", format!("{v64:?}"), w64.map(|v| format!("Ok(Int({v}))"))),
+                                      ("i128 literal", format!("{g128:?}"), want.map(|v| format!("Ok(Int({v}))"))), ("i128 variable", format!("{v128:?}"), want.map(|v| format!("Ok(Int({v}))")))] { chk(name, got, want, &mut bad); }
+        }
+        // the same for arithmetic that overflows the narrow type only
+        for (text, w64) in [("2147483647+1", 2147483648i64), ("65536*65536", 4294967296), ("2^40", 1099511627776), ("-2147483647-2", -2147483649), ("46341*46341", 2147488281)] {
+            let n = parse_val::<i32, f64>(text).and_then(|e| e.eval(&[])); let wd = parse_val::<i64, f64>(text).and_then(|e| e.eval(&[]));
+            histories += 1;
+            if !format!("{n:?}").contains("Error") { bad.push(format!("i32 {text} = {n:?}, expected an overflow error value")); }
+            if format!("{wd:?}") != format!("Ok(Int({w64}))") { bad.push(format!("after the i32 evaluation: i64 {text} = {wd:?}, expected {w64}")); }
+        }
+    }
     // histories that contain failed (panicking, caught) evaluations: later results must not depend on them.
     // integer data type whose division panics on a zero divisor, expressions below and above 64 operands
     {
